@@ -41,6 +41,11 @@ func (d *numberDecoder) DecodeStream(s *Stream, depth int64, p unsafe.Pointer) e
 	if err != nil {
 		return err
 	}
+	if bytes == nil {
+		// null leaves a json.Number as it is
+		s.reset()
+		return nil
+	}
 	if err := validateNumberLiteral(*(*string)(unsafe.Pointer(&bytes))); err != nil {
 		return errors.ErrSyntax(err.Error(), s.totalOffset())
 	}
@@ -53,6 +58,10 @@ func (d *numberDecoder) Decode(ctx *RuntimeContext, cursor, depth int64, p unsaf
 	bytes, c, err := d.decodeByte(ctx.Buf, cursor)
 	if err != nil {
 		return 0, err
+	}
+	if bytes == nil {
+		// null leaves a json.Number as it is
+		return c, nil
 	}
 	if err := validateNumberLiteral(*(*string)(unsafe.Pointer(&bytes))); err != nil {
 		return 0, errors.ErrSyntax(err.Error(), c)
